@@ -163,6 +163,24 @@ func c08values(md protoreflect.MessageDescriptor, rc *corpus.RouteCase) []struct
 		}
 		out = append(out, lv{s.c, m})
 	}
+	// last on every route, after the calls above have carried values in every field: a request that
+	// leaves everything but the path variables at its default (clients omit defaults from query and body,
+	// so whatever a server keeps from an earlier request of the route would show here), twice
+	pathVar := map[string]bool{}
+	for _, v := range rc.PathVars {
+		pathVar[v] = true
+	}
+	for _, cl := range []string{"defaults-after-values", "defaults-again"} {
+		m := dynamicpb.NewMessage(md)
+		full := sentinelReq(md)
+		fds := md.Fields()
+		for i := 0; i < fds.Len(); i++ {
+			if pathVar[string(fds.Get(i).Name())] {
+				m.Set(fds.Get(i), full.Get(fds.Get(i)))
+			}
+		}
+		out = append(out, lv{cl, m})
+	}
 	return out
 }
 
